@@ -17,7 +17,7 @@ let int_of_n = function N0 -> 0 | Npos p -> int_of_pos p
 let show_err = function
   | EOom -> "e:oom" | EMaxLoans -> "e:maxloans" | EMaxActive -> "e:maxactive" | EMaxBorrows -> "e:maxborrows"
   | EMaxClients -> "e:ExceedsMaxSupportedClients" | EMaxServers -> "e:ExceedsMaxSupportedServers"
-let show_obs = function
+let rec show_obs = function
   | ONone -> "-" | OOk -> "ok" | OOkN v -> "ok" ^ string_of_int (int_of_n v)
   | OLoan (h, c) -> Printf.sprintf "ok%d:%d" (int_of_n h) (int_of_n c)
   | OErr e -> show_err e | ORecvNone -> "n"
@@ -25,6 +25,11 @@ let show_obs = function
   | OAct (h, r, c) -> Printf.sprintf "a%d:%d:%d" (int_of_n h) (int_of_n r) (int_of_n c)
   | OBool b -> if b then "b1" else "b0"
   | OPanic -> "P"
+  | OQh (r, h) ->
+    show_obs r ^ "~" ^ (match h with
+        | None -> "-"
+        | Some None -> "x"
+        | Some (Some (b, o)) -> (if b then "b1" else "b0") ^ "~" ^ show_obs o)
 let b01 b = if b then "1" else "0"
 let show_digest s =
   let p = List.map (fun ((h, c), r) -> Printf.sprintf "%d:%s%s" (int_of_n h) (b01 c) (b01 r)) (digest_p s) in
@@ -36,7 +41,7 @@ let parse_op name args =
   let a k = n_of_int (try int_of_string (List.nth args k) with _ -> 0) in
   match name with
   | "cc" -> Cc (a 0) | "cd" -> Cd (a 0) | "sc" -> Sc (a 0) | "sd" -> Sd (a 0)
-  | "l" -> L (a 0) | "s" -> S_ | "lx" -> Lx | "q" -> Q (a 0) | "qd" -> Qd (a 0)
+  | "l" -> L (a 0) | "s" -> S_ | "lx" -> Lx | "q" | "qh" -> Q (a 0) | "qd" -> Qd (a 0)
   | "pr" -> Pr (a 0) | "pd" -> Pd (a 0) | "ph" -> Ph (a 0) | "rx" -> Rx (a 0)
   | "sr" -> Sr (a 0) | "sh" -> Sh (a 0)
   | "as" -> As (a 0) | "al" -> Al (a 0) | "aw" -> Aw | "ax" -> Ax | "ad" -> Ad (a 0)
@@ -81,6 +86,7 @@ let () =
   let conn_seen = ref [] and spur_dead = ref false and spurk_dead = ref false in
   let pre_cands = ref [] and acts_before = ref [] in
   let resp_before = ref [] and lost_dead = ref false in
+  let next_hid = ref 0 and loans_q = ref [] and maybe = Array.make 4 [] and act_known = ref [] and rl_dead = ref false and rd_dead = ref false in
   let printed = Hashtbl.create 64 in
   let report sg text =
     let n = try Hashtbl.find printed sg with Not_found -> 0 in
@@ -110,7 +116,7 @@ let () =
       match toks with
       | "C" :: _variant :: kvs ->
         flush_case (); incr case_no; op_no := 0; dead := false; spec_dead := false; disc_dead := false;
-        ospec := ospec0; pend_before := []; srv_seen := []; hyp_false := false; reuse_seen := false; cd_seen := false; conn_seen := []; spur_dead := false; spurk_dead := false; pre_cands := []; acts_before := []; resp_before := []; lost_dead := false;
+        ospec := ospec0; pend_before := []; srv_seen := []; hyp_false := false; reuse_seen := false; cd_seen := false; conn_seen := []; spur_dead := false; spurk_dead := false; pre_cands := []; acts_before := []; resp_before := []; lost_dead := false; next_hid := 0; loans_q := []; Array.fill maybe 0 4 []; act_known := []; rl_dead := false; rd_dead := false;
         let kv k = let p = k ^ "=" in
           let e = List.find (fun s -> String.length s > String.length p && String.sub s 0 (String.length p) = p) kvs in
           int_of_string (String.sub e (String.length p) (String.length e - String.length p)) in
@@ -152,14 +158,19 @@ let () =
               report "spechyp" (Printf.sprintf "MISMATCH case=%d op=%d kind=spec what=send_hypothesis_outside_known_class line=[%s] spec=response-sent-into-a-connection-of-the-requesting-client impl=%s\n" !case_no !op_no line impl_obs)
             end
           end;
+          let arg k = n_of_int (try int_of_string (List.nth args k) with _ -> 0) in
+          let ox = if name = "qh" then XQh (arg 0, arg 1) else XOp o in
           List.iter (fun s ->
-              let peers = (match o with Pr k -> client_peers s k | Sr j -> server_peers s j | _ -> []) in
+              let peers = (match ox with XOp (Pr k) -> client_peers s k | XOp (Sr j) -> server_peers s j | XQh (_, j) -> server_peers s j | _ -> []) in
               let ords = if List.length peers <= 1 then [peers] else take 24 (perms peers) in
-              List.iter (fun ord ->
-                  let (s', ob) = step c ord s o in
+              (* the scripted send serves the client's connections in an order the model does not fix either *)
+              let dpeers = (match ox with XQh (i, _) -> client_send_peers s i | _ -> []) in
+              let dords = if List.length dpeers <= 1 then [dpeers] else take 24 (perms dpeers) in
+              List.iter (fun ord -> List.iter (fun dord ->
+                  let (s', ob) = stepx c ord dord s ox in
                   let text = show_full s' ob in
                   if !first = None then first := Some text;
-                  if text = impl && not (List.mem s' !next) then next := s' :: !next) ords) !cands;
+                  if text = impl && not (List.mem s' !next) then next := s' :: !next) dords) ords) !cands;
           (* c11_reqres_conservation_full, evaluated on every model state that agrees with the implementation *)
           if List.exists (fun st -> not (cons_okb st)) !next then begin
             incr mm_model;
@@ -173,6 +184,49 @@ let () =
            | l -> cands := take 16 (List.rev l); if List.length l > !maxc then maxc := List.length l);
           if impl_obs = "P" then dead := true
         end;
+        (* ---- requests that must not get lost (observations only): maybe.(j) over-approximates the requests queued
+           at server slot j; a receive that returns None although has_requests() just reported a request is
+           legitimate only if one of them belongs to a dropped pending response (fire-and-forget off) ---- *)
+        let argi k = (try int_of_string (List.nth args k) with _ -> 0) in
+        let starts p str = String.length str >= String.length p && String.sub str 0 (String.length p) = p in
+        let ok_count str = (* "ok<n>" or "ok<n>~..." *)
+          if starts "ok" str then (try Scanf.sscanf (String.sub str 2 (String.length str - 2)) "%d" (fun n -> Some n) with _ -> None) else None in
+        let servers_now = ref [] in
+        (match !g with Some c0 -> ignore c0 | None -> ());
+        let add_delivered h = for j = 0 to 3 do if List.mem j !servers_now then maybe.(j) <- h :: maybe.(j) done in
+        ignore add_delivered;
+        let sr_result j res =
+          if res = "n" then maybe.(j) <- []
+          else if starts "a" res then
+            (match String.split_on_char ':' (String.sub res 1 (String.length res - 1)) with
+             | h :: _ -> (try let h = int_of_string h in maybe.(j) <- List.filter (fun x -> x <> h) maybe.(j) with _ -> ())
+             | [] -> ()) in
+        let faf_on = (match !g with Some c0 -> c0.faf | None -> true) in
+        let lost_check j sh res =
+          if (not faf_on) && sh = "b1" && res = "n" && (not !rl_dead) && List.for_all (fun h -> List.mem h !pend_before) maybe.(j) then begin
+            rl_dead := true; incr mm_spec;
+            report "specreqlost" (Printf.sprintf "MISMATCH case=%d op=%d kind=spec what=request_lost line=[%s] spec=has_requests-reported-a-request-of-a-live-pending-response-so-receive-returns-it impl=%s\n" !case_no !op_no line impl_obs)
+          end in
+        (match name with
+         | "sc" | "sd" when impl_obs = "ok" -> maybe.(argi 0) <- []
+         | "l" when impl_obs <> "-" -> let h = !next_hid in incr next_hid; if starts "ok" impl_obs then loans_q := !loans_q @ [h]
+         | "lx" when impl_obs <> "-" -> (match !loans_q with _ :: t -> loans_q := t | [] -> ())
+         | "s" when impl_obs <> "-" ->
+           (match !loans_q with
+            | h :: t -> loans_q := t; (match ok_count impl_obs with Some n when n >= 1 -> for j = 0 to 3 do maybe.(j) <- h :: maybe.(j) done | _ -> ())
+            | [] -> ())
+         | "q" | "qd" when impl_obs <> "-" ->
+           let h = !next_hid in incr next_hid;
+           (match ok_count impl_obs with Some n when n >= 1 -> for j = 0 to 3 do maybe.(j) <- h :: maybe.(j) done | _ -> ())
+         | "qh" when impl_obs <> "-" ->
+           let h = !next_hid in incr next_hid;
+           let j = argi 1 in
+           (match String.split_on_char '~' impl_obs with
+            | [_; sh; res] -> lost_check j sh res; sr_result j res
+            | _ -> ());
+           (match ok_count impl_obs with Some n when n >= 1 -> for jj = 0 to 3 do if not (jj = j && (match String.split_on_char '~' impl_obs with [_; _; res] -> starts "a" res | _ -> false)) then maybe.(jj) <- h :: maybe.(jj) done | _ -> ())
+         | "sr" when impl_obs <> "-" -> sr_result (argi 0) impl_obs
+         | _ -> ());
         (* a poll of one pending response touches only its own channel: a response queued for a SIBLING pending
            response must still be there afterwards (regression of fix 9915d96) *)
         let resp_now = parse_pend_resp impl in
@@ -186,6 +240,16 @@ let () =
                end) !resp_before
          | _ -> ());
         resp_before := resp_now;
+        (* an ActiveRequest that is handed out while the PendingResponse of its request is alive is connected *)
+        (let (pend_now, act_now) = parse_digest impl in
+         List.iter (fun (h, j, conn) ->
+             if not (List.mem (h, j) !act_known) then begin
+               act_known := (h, j) :: !act_known;
+               if (not conn) && List.mem h pend_now && not !rd_dead then begin
+                 rd_dead := true; incr mm_spec;
+                 report "specrecvdisc" (Printf.sprintf "MISMATCH case=%d op=%d kind=spec what=received_disconnected line=[%s] spec=active-request-%d@%d-is-connected-while-its-pending-response-is-alive impl=%s\n" !case_no !op_no line h j impl_obs)
+               end
+             end) act_now);
         (* ---- the oracle of the property, on the implementation's observations ---- *)
         if not !spec_dead then begin
           let bad what spec =
